@@ -53,6 +53,7 @@ func checkC08(r *Run) {
 	gh.Hosts = append(derivedHostsFirst(gh, pick(r, 8, 14)), "a.b", "a.ab", "a.b.ab")
 	runMatchD1(r, gh, "tsr", false, pick(r, 5*time.Minute, 40*time.Minute))
 	runServeD1(r, newServeGen(r, rng), "C08", pick(r, 5*time.Minute, 40*time.Minute))
+	runServeD1(r, newServeGenHost(r, rng), "C08", pick(r, 5*time.Minute, 40*time.Minute)) // hostname tables; methods GET, HEAD, OPTIONS
 	runServeD2(r, rng, "C08")
 	runServeDirtyStatic(r, rng)
 	runConnectTsr(r)
